@@ -79,3 +79,51 @@ fn kb_compare_arrays2() {
     assert!(r2.is_ok() && ord_i8(r2.unwrap()) == -want);
     kani::cover!(want == 0 && a[0].it.plen != b[0].it.plen);
 }
+
+// ------------------------------------------------------------------ C05 accessors (bounded twins of units walk/walk2/acc)
+/// arrays of exactly 3 scalars from the menu: get_by_index for every index 0..=4, array_length, array_values length
+#[kani::proof]
+#[kani::unwind(40)]
+#[kani::stub(crate::parser::parse_value, no_text)]
+fn kb_get_by_index3() {
+    let a = [any_sc(), any_sc(), any_sc()];
+    let doc = layout_array(&[a[0].it, a[1].it, a[2].it]);
+    let idx: usize = kani::any();
+    kani::assume(idx <= 4);
+    let got = get_by_index(doc.as_slice(), idx);
+    if idx < 3 {
+        let want = a[idx].it.doc();
+        assert!(opt_eq(&got, Some(&want)));
+    } else {
+        assert!(got.is_none());
+    }
+    assert!(array_length(doc.as_slice()) == Some(3));
+}
+
+/// objects with exactly 2 members (keys: sorted distinct ASCII strings of 1..=2 bytes, values: scalars from the menu):
+/// get_by_name exact and ignore-case against the member list
+#[kani::proof]
+#[kani::unwind(40)]
+#[kani::stub(crate::parser::parse_value, no_text)]
+fn kb_get_by_name2() {
+    let k = [any_key(2), any_key(2)];
+    kani::assume(k[0].plen >= 1 && k[1].plen >= 1 && key_lt(&k[0], &k[1]));
+    let v = [any_sc(), any_sc()];
+    let doc = layout_object(&[k[0], k[1]], &[v[0].it, v[1].it]);
+    // the name looked up: one of the keys, possibly with the case of its first byte flipped, or a fresh string
+    let name_it = any_key(2);
+    kani::assume(name_it.plen >= 1);
+    let name = std::str::from_utf8(name_it.payload()).unwrap();
+    let ic: bool = kani::any();
+    let eq = |a: &It, b: &It| a.plen == b.plen && a.pay[0] == b.pay[0] && (a.plen < 2 || a.pay[1] == b.pay[1]);
+    let lower = |c: u8| if c >= b'A' && c <= b'Z' { c + 32 } else { c };
+    let eq_ic = |a: &It, b: &It| a.plen == b.plen && lower(a.pay[0]) == lower(b.pay[0]) && (a.plen < 2 || lower(a.pay[1]) == lower(b.pay[1]));
+    let want: Option<usize> = if eq(&k[0], &name_it) { Some(0) } else if eq(&k[1], &name_it) { Some(1) }
+        else if ic && eq_ic(&k[0], &name_it) { Some(0) } else if ic && eq_ic(&k[1], &name_it) { Some(1) } else { None };
+    let got = get_by_name(doc.as_slice(), name, ic);
+    match want {
+        Some(j) => { let w = v[j].it.doc(); assert!(opt_eq(&got, Some(&w))); }
+        None => assert!(got.is_none()),
+    }
+    kani::cover!(want == Some(1) && ic && !eq(&k[1], &name_it));
+}
